@@ -23,10 +23,11 @@ def render(c):
         return text + SCOPE[c['scope']]
     if k == 'cidr':
         if c['fam'] == 4:
-            a = {'ok': '10.0.0.0', 'ok_hostbits': '10.1.2.3', 'bad': '10.0.0.256', 'ok_longest': '255.255.255.255'}[c['addr']]
+            a = {'ok': '10.0.0.0', 'ok_hostbits': '10.1.2.3', 'bad': '10.0.0.256', 'ok_longest': '255.255.255.255',
+                 'bad_scoped': '10.0.0.1%eth0'}[c['addr']]
         else:
             a = {'ok': '2001:db8::', 'ok_hostbits': '2001:db8::1', 'bad': '2001:db8::g',
-                 'ok_longest': '1111:2222:3333:4444:5555:6666:123.123.123.123'}[c['addr']]
+                 'ok_longest': '1111:2222:3333:4444:5555:6666:123.123.123.123', 'bad_scoped': 'fe80::1%eth0'}[c['addr']]
         if c['slashes'] == 0:
             return a
         if c['slashes'] == 1:
@@ -56,8 +57,8 @@ def stdlib(k, text, c):
             ipaddress.IPv6Address(text)
             return True
         if k == 'cidr':
-            if c['slashes'] != 1:
-                return None
+            if c['slashes'] != 1 or c['addr'] == 'bad_scoped':
+                return None         # (recent Pythons accept a zone index on a network; netaddr, hence oslo.utils, does not: as shipped)
             ipaddress.ip_network(text, strict=False)
             return True
     except ValueError:
@@ -191,6 +192,19 @@ def run(ctx):
                               '%s(%r) raises %s instead of answering' % (fn.__name__, text, got))
     ctx.cov['evaluations'] += t
     ctx.stage('totality', calls=t)
+    # beyond the statement (which speaks of the strict form): with strict=False the answer is the C library's inet_aton
+    import socket
+    for text in ('300', '2130706433', '127.65535', '192.168.65535', '0377.1', '0x7f.1', '1.2.3', '1', '4294967296', '1.2.3.4.5',
+                 '127.1', '10.0.0.256', '0300.0250.1', '1.2.3.4'):
+        try:
+            socket.inet_aton(text)
+            libc = True
+        except OSError:
+            libc = False
+        got = truth(netutils.is_valid_ipv4, text, False)
+        if got != libc:
+            ctx.beyond('Net', {'kind': 'non-strict-ipv4', 'libc': libc}, {'text': text, 'observed': got},
+                       'is_valid_ipv4(%r, strict=False) -> %s, inet_aton says %s' % (text, got, libc))
     _rec.__exit__()
     _rec.replay(ctx, 'c11')
     # binding self-test
